@@ -280,6 +280,64 @@ func streamDispatch(c *ctx) {
 			c.fail(failure{Op: "dispatch", What: "implementation obtained for an unregistered key type", Input: describe(map[any]any(k)), Observed: fmt.Sprint(oks), Expected: "all errors", Theorem: "C17_dispatch_registered_only"})
 		}
 	}
+	// 2b. integer twins of the registered identifiers: values that collapse onto a registered algorithm only when an
+	// integer conversion wraps (2^64 + alg as uint64, alg +/- 2^32 as int64 / uint64, alg + 2^16 ...) are not that algorithm
+	for _, a := range allAlgs {
+		var twins []any
+		if a.alg < 0 {
+			twins = append(twins, ^uint64(0)-uint64(-a.alg)+1, uint64(1<<32)-uint64(-a.alg), uint32(1<<32-uint64(-a.alg)), uint16(1<<16-uint64(-a.alg)))
+		}
+		twins = append(twins, int64(a.alg)+(1<<32), int64(a.alg)-(1<<32), int64(a.alg)+(1<<31), int64(a.alg)+(1<<16), int64(a.alg)+256, int64(a.alg)-256)
+		if a.alg > 0 {
+			twins = append(twins, uint64(a.alg)+(1<<32), uint64(a.alg)+(1<<63))
+		}
+		for _, tw := range twins {
+			var k key.Key
+			var orc oracleVals
+			switch {
+			case a.kty == 4:
+				k = key.Key{iana.KeyParameterKty: 4, iana.SymmetricKeyParameterK: c.r.bytes(symKeySize[a.alg])}
+			case a.kty == 1:
+				k, orc = edKey(c, false)
+			default:
+				k, orc = ecdsaKey(c, false)
+				for k[iana.EC2KeyParameterCrv].(int) != a.crv {
+					k, orc = ecdsaKey(c, false)
+				}
+			}
+			orc.onCurve = true
+			genuine := key.Key{}
+			for x, y := range k {
+				genuine[x] = y
+			}
+			genuine[iana.KeyParameterAlg] = a.alg
+			k[iana.KeyParameterAlg] = tw
+			oks := emit(k, orc, fmt.Sprintf("twin of alg=%d", a.alg))
+			if oks[0] || oks[1] || oks[2] || oks[3] {
+				obs := fmt.Sprint(oks)
+				if s, _, _, _, _ := obtainAll(k); s != nil {
+					if _, v, _, _, _ := obtainAll(genuine); v != nil {
+						if sig, err := s.Sign(data); err == nil && v.Verify(data, sig) == nil {
+							obs += fmt.Sprintf("; its signature verifies under the genuine alg=%d key", a.alg)
+						}
+					}
+				}
+				c.fail(failure{Op: "dispatch", What: "a key whose alg is not a registered identifier (it only wraps onto one) yields an implementation", Input: fmt.Sprintf("alg=%T(%v) key=%s", tw, tw, describe(map[any]any(k))),
+					Observed: obs, Expected: "all errors", Theorem: "C17_dispatch_registered_only"})
+			}
+			// the same through CBOR, as a peer would send it
+			if b, err := key.MarshalCBOR(k); err == nil {
+				var k2 key.Key
+				if key.UnmarshalCBOR(b, &k2) == nil {
+					oks2 := emit(k2, orc, fmt.Sprintf("twin of alg=%d decoded", a.alg))
+					if oks2[0] || oks2[1] || oks2[2] || oks2[3] {
+						c.fail(failure{Op: "dispatch", What: "a decoded key whose alg is not a registered identifier (it only wraps onto one) yields an implementation", Input: fmt.Sprintf("alg=%T(%v) cbor=%x", tw, tw, b),
+							Observed: fmt.Sprint(oks2), Expected: "all errors", Theorem: "C17_dispatch_registered_only"})
+					}
+				}
+			}
+		}
+	}
 	// 3. nil key
 	var nk key.Key
 	_, _, _, _, errs := obtainAll(nk)
